@@ -285,6 +285,8 @@ static void run_plan(const Plan &p, bool want_log, RunOut &ro, bool count = true
 
 // ------------------------------------------------------------------ generation
 static vector<string> g_pool;
+static vector<string> g_idn_tld_addrs;                 // one address per xn-- TLD of the table (A-label form)
+static vector<string> g_all_tld_addrs;                 // one address per TLD of the table
 static vector<std::pair<string, string>> g_pairs;      // addresses whose TLDs are related (one a prefix of the other, different class)
 static string g_repo = "/repo";
 static void build_pool() {
@@ -302,6 +304,10 @@ static void build_pool() {
     // TLD pairs where one name is a proper prefix of the other and the classes differ: a cache or scratch buffer
     // shared between threads turns one into the other
     int nt = 0; while (tld_list[nt].domain) nt++;
+    for (int i = 0; i < nt; i++) {
+        g_all_tld_addrs.push_back(string("u@m.") + tld_list[i].domain);
+        if (!strncmp(tld_list[i].domain, "xn--", 4)) g_idn_tld_addrs.push_back(string("u@m.") + tld_list[i].domain);
+    }
     for (int i = 0; i < nt && g_pairs.size() < 400; i++) for (int j = 0; j < nt; j++) {
         if (i == j) continue;
         size_t li = strlen(tld_list[i].domain), lj = strlen(tld_list[j].domain);
@@ -316,6 +322,27 @@ static Plan gen_plan(const string &cfg, uint64_t seed, long long index) {
     sim_rng w = sim_derive(rs, 1), s = sim_derive(rs, 2);
     static const int TS[] = { 2, 2, 2, 3, 3, 4, 4, 8, 16 };
     p.nthreads = TS[sim_below(&w, 9)];
+    if (sim_below(&w, 8) == 0 && !g_idn_tld_addrs.empty()) {
+        // "sweep": every thread looks up a large shared set of TLDs in its own order. Hashed or set-associative
+        // caches only go wrong when two particular keys meet; a big key set makes them meet.
+        p.nthreads = 2 + (int)sim_below(&w, 3);
+        const vector<string> &src = sim_below(&w, 3) ? g_idn_tld_addrs : g_all_tld_addrs;
+        size_t k = 30 + sim_below(&w, src.size() > 200 ? 170 : src.size() - 30 + 1);
+        vector<string> keys;
+        if (k >= src.size()) keys = src; else { size_t st = sim_below(&w, src.size()); for (size_t i = 0; i < k; i++) keys.push_back(src[(st + i * 7) % src.size()]); }
+        unsigned p_email = (unsigned)sim_below(&w, 30);
+        for (int t = 0; t < p.nthreads; t++) {
+            Op a; a.t = t; a.k = SET_RFC; a.v = (long long)sim_below(&w, 4); p.ops.push_back(a);
+            Op b; b.t = t; b.k = SETUP; p.ops.push_back(b);
+            vector<string> mine = keys;
+            for (size_t i = mine.size(); i > 1; i--) std::swap(mine[i - 1], mine[sim_below(&w, i)]);
+            int rounds = 1 + (int)sim_below(&w, 2);
+            for (int r = 0; r < rounds; r++) for (auto &x : mine) { Op o; o.t = t; o.k = sim_below(&w, 100) < p_email ? IS_EMAIL : TLD; o.a = x; p.ops.push_back(o); }
+        }
+        p.sched_seed = sim_next(&s);
+        p.policy = sim_below(&s, 2) ? 4 : 1; static const uint64_t D2[] = { 4, 16, 64 }; p.den = D2[sim_below(&s, 3)];
+        return p;
+    }
     int per = p.nthreads >= 8 ? 1 + (int)sim_below(&w, 8) : 1 + (int)sim_below(&w, 30);
     if (sim_below(&w, 3) == 0) per = 1 + (int)sim_below(&w, 4);
     int npool = 1 + (int)sim_below(&w, 8);
